@@ -300,7 +300,15 @@ def run(ctx):
             ctx.ob("R1", s["key"], False, "iteration over a hashed container reaches an order-sensitive or unclassified sink (%s; %s) and has no reviewed verdict: the result may depend on the hash seed" % (s["sig"], "; ".join(s["detail"])[:200]), where=where, facts={"sig": s["sig"]})
             continue
         used.add(s["key"])
-        if sig_class(row["sig"]) != sig_class(s["sig"]):
+        def same_class(a_sig, b_sig):
+            a, b = sig_class(a_sig), sig_class(b_sig)
+            if a == b:
+                return True
+            # `for k in map.keys() { self.visit(k)? }`  <->  `map.keys().try_for_each(|k| self.visit(k))`: a stateful loop with an early
+            # exit and a try_for_each/try_fold terminal are the same sink (every item handed to one stateful callee until the first error)
+            both = {(a_sig, a), (b_sig, b)}
+            return any("calls-mut" in x and "early-exit" in x for x, _ in both) and any(x.startswith("terminal:try_for") or x.startswith("terminal:try_fold") for x, _ in both)
+        if not same_class(row["sig"], s["sig"]):
             ctx.ob("R1", s["key"], False, "sink class changed since review: reviewed `%s` (%s), now `%s` (%s) — the verdict %s no longer applies" % (row["sig"], sig_class(row["sig"]), s["sig"], sig_class(s["sig"]), row["verdict"]), where=where)
             continue
         if row["verdict"] == "FINDING":
